@@ -90,7 +90,7 @@ def api_scripts(tier, rng, n=None):
         L = []
         if wildcard:
             ps = default_policy(rng, 0, ssrc_type=SSRC_ANY_OUT, **kw)
-            pr = default_policy(rng, 0, ssrc_type=SSRC_ANY_IN, **dict(kw, keys=ps.keys))
+            pr = default_policy(rng, 0, ssrc_type=SSRC_ANY_IN, **dict(kw, keys=ps.keys, rtp=ps.rtp, rtcp=ps.rtcp))
             L += [ps.line(1), pr.line(2), "create 1 1", "create 2 2"]
         else:
             ps = default_policy(rng, ssrcs[0], **kw)
